@@ -201,7 +201,8 @@ def net_strategy(safe):
             "asym": st.booleans(), "extra": st.integers(1, 4), "cancel": st.sampled_from([0, 0, 0, 0, 0, 1, 2]),
         })
         return st.fixed_dictionaries({"n": st.integers(3, 4), "L0": st.integers(1, 3),
-                                      "faults": st.lists(fault, min_size=1, max_size=6), "safe": st.just(safe)})
+                                      "faults": st.lists(fault, min_size=1, max_size=6), "safe": st.just(safe),
+                                      "bidir": st.booleans()})
     return s
 
 
@@ -263,9 +264,18 @@ def run_net(case):
     links = {}
     for i in range(n):
         for j in range(n):
+            if i == j:
+                continue
+            if case.get("bidir"):
+                # one declaration per unordered pair: the reverse direction is the library's own copy of the link
+                if i < j:
+                    net.add_bidirectional_link(hosts[i], hosts[j], NetworkLink(name=f"l{i}{j}", latency=ConstantLatency(L0 / 1e9)))
+            else:
+                net.add_link(hosts[i], hosts[j], NetworkLink(name=f"l{i}{j}", latency=ConstantLatency(L0 / 1e9), egress=hosts[j]))
+    for i in range(n):
+        for j in range(n):
             if i != j:
-                links[(i, j)] = NetworkLink(name=f"l{i}{j}", latency=ConstantLatency(L0 / 1e9), egress=hosts[j])
-                net.add_link(hosts[i], hosts[j], links[(i, j)])
+                links[(i, j)] = net.get_link(f"h{i}", f"h{j}")
     sched = FaultSchedule()
     late = []
     faults = net_faults(case)
@@ -354,6 +364,7 @@ def execute_net(obl):
         with_cancel_hypotheses(r, obl, modes, judge)
         r.nontrivial = flags.get("live", False) and (flags["nt"] or obl.endswith("safe"))
         r.labels += [l for l, c in (("overlap-or-adjacent", flags["nt"]), ("cancelled", bool(modes)),
+                                    ("bidirectional-links", bool(case.get("bidir"))),
                                     ("kinds:" + "".join(sorted({g["kind"][0] for g in faults if not g["cancel"]})), True)) if c]
         return r
     return execute
@@ -488,7 +499,7 @@ def execute_cap(obl):
 NODE_RULE = ("2-4 scripted nodes, 0-5 crash / pause / permanent-crash windows (tick grid, non-overlapping per entity, some handles "
              "cancelled before the run), 1-18 pokes on and between ticks, each an immediate handler or a generator of up to 4 delays "
              "(so processes are in flight at crash instants); non-trivial = an active window exists and a process is in flight at a crash instant")
-NET_RULE = ("3-4 hosts, full mesh of constant-latency links, 1-6 partition (groups, symmetric/asymmetric) / latency / loss(1.0) windows on "
+NET_RULE = ("3-4 hosts, full mesh of constant-latency links (declared per direction, or per pair through add_bidirectional_link), 1-6 partition (groups, symmetric/asymmetric) / latency / loss(1.0) windows on "
             "the tick grid, overlapping, nested or adjacent, some cancelled; one probe per directed pair every half tick up to 3 ticks "
             "after the last window; non-trivial = two windows of one kind overlap on one directed pair")
 CAP_RULE = ("Resource of capacity 4 or 8, 1-3 non-overlapping ReduceCapacity windows (factor .25/.5/.75), up to 8 workers acquiring 1-4 "
